@@ -250,6 +250,17 @@ func init() {
 				}
 				judgeCreateAny(c, v5Create, a, b)
 			}},
+			{Name: "differences-deep-down", Exhaustive: true, Count: func(core.Tier) int { return len(deepDepths) * 2 }, Run: func(c *core.Ctx, idx int) {
+				// the difference (a removal, a change, an addition, next to unchanged siblings) lies d levels down
+				d := deepDepths[idx/2]
+				a := deepWrap(d, `{"keep":1,"drop":2,"chg":3,"o":{"x":1,"y":[1]},"z":"s"}`)
+				b := deepWrap(d, `{"keep":1,"chg":4,"o":{"x":1,"y":[1]},"z":"s","new":[1]}`)
+				if idx%2 == 1 {
+					b = deepWrap(d, `{"keep":1,"drop":2,"chg":3,"o":{"x":1},"z":"s"}`)
+				}
+				judgeCreateObj(c, v5Create, a, b)
+				c.Count("deep-differences:cases")
+			}},
 			{Name: "edited-objects", Count: n(60000, 4500000), Run: func(c *core.Ctx, idx int) {
 				aT := prof.Object(c.R, 1+c.R.Intn(4))
 				a := mustParse(aT)
